@@ -230,6 +230,12 @@ impl DB {
     pub fn check(&self) -> Result<()> {
         self.tx(false)?.check()
     }
+
+    /// Verification probe: the shared bookkeeping of this handle.
+    #[cfg(feature = "verif-hooks")]
+    pub fn verif_state(&self) -> crate::verif_hooks::DbState {
+        self.inner.verif_state()
+    }
 }
 pub(crate) struct DBInner {
     pub(crate) data: Mutex<Arc<Mmap>>,
@@ -274,11 +280,30 @@ impl DBInner {
 
     pub(crate) fn resize(&self, file: &File, new_size: u64) -> Result<Arc<Mmap>> {
         file.allocate(new_size)?;
+        verif_at!(ResizeBeforeMapLock, true);
         let _lock = self.mmap_lock.write()?;
+        verif_at!(ResizeBeforeDataLock, true);
         let mut data = self.data.lock()?;
         let mmap = mmap(file, self.flags.mmap_populate)?;
+        #[cfg(feature = "verif-hooks")]
+        crate::verif_hooks::park_map(data.clone());
         *data = Arc::new(mmap);
+        verif_at!(ResizeAfterRemap, true);
         Ok(data.clone())
+    }
+
+    /// Verification probe: the shared bookkeeping of this handle.
+    #[cfg(feature = "verif-hooks")]
+    pub(crate) fn verif_state(&self) -> crate::verif_hooks::DbState {
+        let map_len = self.data.lock().unwrap().len();
+        let fl = self.freelist.lock().unwrap();
+        let readers = self.open_ro_txs.lock().unwrap().clone();
+        crate::verif_hooks::DbState {
+            free: fl.verif_free(),
+            pending: fl.verif_pending(),
+            readers,
+            map_len,
+        }
     }
 
     pub(crate) fn meta(&self) -> Result<Meta> {
